@@ -227,6 +227,9 @@ func (in *Interp) decide(st *State, c *Term) bool {
 	if v, ok := st.Concr[Not(c).ID]; ok {
 		return v == 0
 	}
+	if st.Spec {
+		panic(specAbort{"decide"})
+	}
 	in.Res.BranchQ++
 	rt := in.Sol.CheckWith(c)
 	if rt == Unsat {
@@ -262,6 +265,13 @@ func (in *Interp) doIf(st *State, fr *Frame, x *ssa.If) {
 			in.jump(st, fr, fr.Block.Succs[1])
 		}
 		return
+	}
+	if _, isConst := c.ConstBool(); !isConst {
+		if _, known := st.Concr[c.ID]; !known {
+			if in.tryIfConvert(st, fr, x, c) {
+				return
+			}
+		}
 	}
 	b := in.decide(st, c)
 	if b {
@@ -386,8 +396,24 @@ func (in *Interp) invoke(st *State, fr *Frame, fv FuncV, args []Value, retReg in
 	}
 	if h := in.intrinsic(fn); h != nil {
 		in.stubSeen[fn.String()] = true
-		finish(h(in, st, fr, fn, args))
-		return
+		var rd *redirect
+		func() {
+			defer func() {
+				if r := recover(); r != nil {
+					if x, ok := r.(redirect); ok {
+						rd = &x
+						return
+					}
+					panic(r)
+				}
+			}()
+			finish(h(in, st, fr, fn, args))
+		}()
+		if rd == nil {
+			return
+		}
+		fn, args = rd.fn, rd.args
+		fv = FuncV{Fn: fn}
 	}
 	if fr.InitMode {
 		// opaque result
@@ -487,11 +513,13 @@ func multipleOfPow2(t *Term) uint {
 	case "*":
 		return multipleOfPow2(t.Args[0]) + multipleOfPow2(t.Args[1])
 	case "+", "-":
-		a, b := multipleOfPow2(t.Args[0]), multipleOfPow2(t.Args[1])
-		if a < b {
-			return a
+		m := uint(64)
+		for _, x := range t.Args {
+			if k := multipleOfPow2(x); k < m {
+				m = k
+			}
 		}
-		return b
+		return m
 	case "ite":
 		a, b := multipleOfPow2(t.Args[1]), multipleOfPow2(t.Args[2])
 		if a < b {
